@@ -276,13 +276,16 @@ func VH_C02_profiles() {
 			Ptype: []string{"cpu"}, ServiceName: []string{"svc" + tag}, PeriodType: []string{"t"}, PeriodUnit: []string{"u"},
 			PayloadType: []string{"0"}, Payload: [][]byte{vrt.Bytes(tag+"-payload", 1)},
 		}
-		for i, n := 0, vrt.Len(tag+"-sample-types", 0, 2); i < n; i++ {
+		for i, n := 0, vrt.Len(tag+"-sample-types", 0, 1); i < n; i++ {
 			d.SamplesTypesUnits = append(d.SamplesTypesUnits, model.StrStr{Str1: "s", Str2: "u"})
 			d.ValuesAgg = append(d.ValuesAgg, model.ValuesAgg{ValueStr: "s", ValueInt64: vrt.Int64(tag + "-agg"), ValueInt32: 1})
 		}
 		for i, n := 0, vrt.Len(tag+"-tree-nodes", 0, 2); i < n; i++ {
-			d.Tree = append(d.Tree, model.TreeRootStructure{Field1: uint64(i), Field2: 1, Field3: 2,
-				ValueArrTuple: []model.ValuesArrTuple{{ValueStr: "s", FirstValueInt64: 1, SecondValueInt64: 2}}})
+			node := model.TreeRootStructure{Field1: uint64(i), Field2: 1, Field3: 2}
+			for k, nv := 0, vrt.Len(tag+"-node-values", 0, 1); k < nv; k++ { // a node may carry no value at all
+				node.ValueArrTuple = append(node.ValueArrTuple, model.ValuesArrTuple{ValueStr: "s", FirstValueInt64: int64(k), SecondValueInt64: 2})
+			}
+			d.Tree = append(d.Tree, node)
 			d.Function = append(d.Function, model.Function{ValueInt64: uint64(i), ValueStr: "f"})
 		}
 		if vrt.Bool(tag + "-has-tag") {
@@ -297,6 +300,18 @@ func VH_C02_profiles() {
 	vrt.Assert(err == nil && n2 == 1, "request-accepted-with-its-row-count")
 	vcRectangular(cols, 2)
 	acq := (&profileSamplesAcquirer{}).fromIFace(cols)
+	// the tree column: one array per request, one element per node, and per node one array of its values
+	nodes := len(a.Tree) + len(b.Tree)
+	vrt.Assert(acq.tree.Data.Data.Rows() == nodes, "tree-column-holds-every-node-once")
+	for j, r := range []*model.ProfileData{a, b} {
+		vrt.Assert(len(acq.tree.Data.Row(j)) == len(r.Tree), "tree-row-has-its-own-requests-nodes")
+		for k, nd := range acq.tree.Data.Row(j) {
+			vrt.Assert(nd.Field1 == r.Tree[k].Field1 && len(nd.ValueArrTuple) == len(r.Tree[k].ValueArrTuple), "tree-node-carries-its-own-values")
+			for x := range nd.ValueArrTuple {
+				vrt.Assert(nd.ValueArrTuple[x].FirstValueInt64 == r.Tree[k].ValueArrTuple[x].FirstValueInt64, "tree-node-value-is-its-own")
+			}
+		}
+	}
 	for j, r := range []*model.ProfileData{a, b} {
 		vrt.Assert(acq.timestampNs.Data[j] == r.TimestampNs[0] && acq.durationNs.Data[j] == r.DurationNs[0], "row-times-from-its-own-request")
 		vrt.Assert(acq.serviceName.Data.Row(j) == r.ServiceName[0], "row-service-from-its-own-request")
